@@ -58,13 +58,16 @@ AND the window -/
 def xRowMatches (q : Query) (oa : Option Bool) (r : XRec) : Bool :=
   (columnConds q).all (fun c => c r.row) && oaCond oa r && xWindow q r
 
-/-- `get_features_matching`: the tables are `["user"] if on_alignment else self.table_names`
+/-- the rows `get_features_matching` selects: the tables are `["user"] if on_alignment else self.table_names`
 (generated); every table gets ITS OWN copy of the arguments, from which a table other than `user`
-drops `on_alignment`.  Building the feature dict of a selected row reads
+drops `on_alignment`.  `get_features_matching` then builds the feature dict of every selected row, reading
 `[tuple(c) for c in result["spans"]]`, which raises `TypeError` on a NULL blob. -/
-def getFeaturesMatchingX (db : XDb) (q : Query) (oa : Option Bool) : Except Err (List XRec) :=
-  let sel := (featuresTables oa (tableNames db.kind)).flatMap fun n =>
+def selectFeaturesX (db : XDb) (q : Query) (oa : Option Bool) : List XRec :=
+  (featuresTables oa (tableNames db.kind)).flatMap fun n =>
     (db.table n).filter (xRowMatches q (if n = "user" then oa else none))
+
+def getFeaturesMatchingX (db : XDb) (q : Query) (oa : Option Bool) : Except Err (List XRec) :=
+  let sel := selectFeaturesX db q oa
   if sel.all (·.located) then .ok sel else .error .typeError
 
 /-- `get_records_matching`: the same tables, but every table gets ALL the arguments, so a gff / gb
